@@ -513,6 +513,8 @@ def _floor(a):
 
 _unary("numpy.floor", _floor)
 def _finite_plain(a):
+    if is_sym(a) and a.eq(T.NINF):
+        return False
     if OPTIONS.get("finite_reals") and not (is_sym(a) and a.eq(T.INF)):
         return True       # contract option: every non-NaN value of this contract is finite
     return T.cmp("!=", a, T.INF) if is_sym(a) else True
@@ -662,13 +664,13 @@ def np_empty(interp, st, args, kwargs):
 @reg("numpy.zeros")
 def np_zeros(interp, st, args, kwargs):
     srt = _dtype_sort(st, kwargs)
-    return _const_arr(st, _shape_arg(st, args[0] if args else kwargs["shape"]), 0 if srt == "int" else Fraction(0), srt)
+    return _const_arr(st, _shape_arg(st, args[0] if args else kwargs["shape"]), 0 if srt == "int" else (False if srt == "bool" else Fraction(0)), srt)
 
 
 @reg("numpy.ones")
 def np_ones(interp, st, args, kwargs):
     srt = _dtype_sort(st, kwargs)
-    return _const_arr(st, _shape_arg(st, args[0] if args else kwargs["shape"]), 1 if srt == "int" else Fraction(1), srt)
+    return _const_arr(st, _shape_arg(st, args[0] if args else kwargs["shape"]), 1 if srt == "int" else (True if srt == "bool" else Fraction(1)), srt)
 
 
 @reg("numpy.full")
@@ -889,8 +891,53 @@ def np_min(interp, st, args, kwargs):
 
 REG["numpy.amax"] = REG["numpy.max"]
 REG["numpy.amin"] = REG["numpy.min"]
-REG["numpy.nanmax"] = REG["numpy.max"]
-REG["numpy.nanmin"] = REG["numpy.min"]
+
+
+def _may_be_nan(a):
+    """can a generic cell of the array be NaN in the model?"""
+    if a.sort == "xreal":
+        return True
+    if isinstance(a, CArr):
+        return any(isinstance(v, T.XR) for v in a.data.values())
+    try:
+        return isinstance(a.get(tuple(T.Fresh.int("hx") for _ in a.shape)), T.XR)
+    except Unsupported:
+        return False
+
+
+def _nan_extreme(is_max):
+    def f(interp, st, args, kwargs):
+        """np.nanmax / np.nanmin.  Arrays without NaN cells: np.max / np.min.  Arrays whose cells may be NaN (1-d, no axis):
+        ValueError for an empty array (numpy: zero-size array to reduction operation), otherwise *some* possibly-NaN number
+        (numpy: the extreme of the non-NaN cells, NaN if there is none) -- the value itself is left unspecified."""
+        a = _val(st, args[0])
+        if not isinstance(a, Arr) or not _may_be_nan(a):
+            return (np_max if is_max else np_min)(interp, st, args, kwargs)
+        if len(args) > 1 or kwargs or a.ndim != 1:
+            raise Unsupported("np.nanmax/nanmin of possibly-NaN cells: only 1-d arrays without axis")
+        from .interp import PyRaise
+        if not interp.truth(st, T.cmp(">", a.shape[0], 0)):
+            raise PyRaise(ExcVal("ValueError", ("zero-size array to reduction operation",)))
+        return T.xr(T.Fresh.real("nanext"), T.Fresh.bool("nanext_nan"))
+    return f
+
+
+reg("numpy.nanmax")(_nan_extreme(True))
+reg("numpy.nanmin")(_nan_extreme(False))
+
+
+@reg("numpy.nansum")
+def np_nansum(interp, st, args, kwargs):
+    """np.nansum: the sum with NaN cells counted as zero (booleans count as 0 / 1)"""
+    a = _val(st, args[0])
+    axis = kwargs.get("axis", args[1] if len(args) > 1 else None)
+    if isinstance(a, (list, tuple)):
+        a = carr_from_list(_deep_list(st, a))
+    if not isinstance(a, Arr):
+        return T.ite(T.xnan(a), Fraction(0), T.xval(a)) if isinstance(a, T.XR) else a
+    if _may_be_nan(a):
+        a = st.deref(ew(st, lambda v: T.ite(T.xnan(v), Fraction(0), T.xval(v)) if isinstance(v, T.XR) else v, a))
+    return reduce_sum(st, a, axis)
 
 
 def quant_all(a, pred=lambda v: v):
